@@ -47,6 +47,8 @@ def close(a, b, tol):
 
 
 def user_value(k, n, r):
+    if k == 3:            # USER_C: integer COUNTS, handed over as an integer array (like np.random.poisson)
+        return float(3 + n + 2 * r)
     return (1000.0 * k + 10.0 * n + r) / 100.0
 
 
@@ -97,6 +99,11 @@ def gen_cases(rng, tier):
                       'names': names, 'x': [round(rng.uniform(-2, 2), 3) for _ in range(N)],
                       'b': round(rng.uniform(-1, 1), 3), 'path': ['expr', 'biogeme'][i % 2] if i % 4 else 'both',
                       'threads': rng.choice([1, 2])})
+    # the integer-valued user series as the alphabetically FIRST draw variable, next to real-valued series
+    for i, kind in enumerate(('prod', 'expmix', 'lin')):
+        cases.append({'part': 'mc', 'kind': kind, 'R': 5, 'N': 3, 'types': ['USER_C', 'UNIFORM', 'USER_A'][:2 + i % 2],
+                      'names': ['a_count', 'm_real', 'z_other'][:2 + i % 2], 'x': [0.5, -1.25, 2.0], 'b': 0.4,
+                      'path': 'both', 'threads': 1})
     n_seed = 6 if tier == 'quick' else 40
     for i in range(n_seed):
         s1 = rng.randint(1, 10 ** 6)
@@ -147,7 +154,7 @@ def run_case(c, ctx):
         def make_user(k):
             def g(n, r):
                 calls.setdefault('user%d' % k, []).append((n, r))
-                return np.array([[user_value(k, i, j) for j in range(r)] for i in range(n)], dtype=float).reshape(n, r)
+                return np.array([[user_value(k, i, j) for j in range(r)] for i in range(n)], dtype=(np.int64 if k == 3 else float)).reshape(n, r)
             return g
         d.set_random_number_generators({t: (make_user(k), 'coded %d' % k) for t, k in USER_TYPES.items()})
         # recorder around the native generators used in this case
